@@ -53,9 +53,26 @@ F = {
     'f_pushv': '\tcpu 6502\nx\tset 1\n\tpushv ,x\n\tfoo\n',
     'f_fatal': None,   # placeholder: fatal ends the run, nothing follows
     'f_defsym': '\tcpu 6502\nsym\tequ 5\nm1\tmacro\n\tnop\n\tendm\n\tfoo\n',
+    'f_sh_literal': '\tcpu sh7600\n\torg 0\n\tmov.l #$cafebabe,r1\n\trts\n\tnop\n',       # fails: literal pool never flushed by LTORG
     'f_ok_defsym': '\tcpu 6502\nstart\tequ 5\nloop\tequ 6\nm1\tmacro\n\tnop\n\tendm\n\tnop\n',
 }
 del F['f_fatal']
+
+
+def half_of(t):
+    """a failing predecessor made from a golden source: its first half (whatever state that leaves pending in the target's code
+    generator - open constructs, literal pools, ASSUMEs, modes) followed by an unknown instruction"""
+    lines = open(os.path.join(corpus.tdir(), t, t + '.asm'), 'rb').read().decode('latin-1').split('\n')
+    return '\n'.join(lines[:max(3, len(lines) // 2)]) + '\n\tfoo\n'
+
+
+def tiny_of(t):
+    """the smallest program of the same target: only the first CPU statement of the golden source (an empty code file)"""
+    for l in open(os.path.join(corpus.tdir(), t, t + '.asm'), 'rb').read().decode('latin-1').split('\n'):
+        m = re.match(r'^\s+cpu\s+(\S+)', l, re.I)
+        if m:
+            return '\tcpu %s\n' % m.group(1)
+    return None
 
 
 def groups():
@@ -83,6 +100,15 @@ def subspaces(tier):
                 for b in ts:
                     yield {'k': 'seq', 'files': [f, b], 'flags': list(fl)}
     subs.append(('pairs:failing-predecessor', fpairs()))
+
+    def selfpairs():
+        for fl, ts in sorted(g.items()):
+            for t in ts:
+                yield {'k': 'seq', 'files': ['half:' + t, t], 'flags': list(fl)}
+                if tiny_of(t):
+                    yield {'k': 'seq', 'files': ['half:' + t, 'tiny:' + t], 'flags': list(fl)}
+                    yield {'k': 'seq', 'files': ['f_sh_literal', 'f_ok_defsym', 'tiny:' + t], 'flags': list(fl)}
+    subs.append(('pairs:truncated-self-as-predecessor', selfpairs()))
     OPTS18 = [['-u'], ['-C'], ['-A'], ['-L'], ['-g', 'MAP'], ['-s', '-L'], ['-x', '-x'], ['-P'], ['-M'], ['-r'], ['-u', '-Werror'], ['-I', '-L'], ['-t', '255', '-L']]
 
     def optpairs():
@@ -127,6 +153,10 @@ def putfile(t):
     os.makedirs(d, exist_ok=True)
     if t in F:
         core.put(t + '/' + t + '.asm', F[t])
+    elif t.startswith('half:') or t.startswith('tiny:'):
+        base = t[5:]
+        corpus.prep(base, d)            # include files of the golden source
+        core.put(t + '/' + t + '.asm', half_of(base) if t.startswith('half:') else tiny_of(base))
     else:
         corpus.prep(t, d)
 
